@@ -24,7 +24,7 @@ fn histories_per_cap(tier: Tier) -> u64 {
 
 fn plan(tier: Tier, _seed: u64) -> Plan {
 	Plan {
-		cases: CAPS * histories_per_cap(tier),
+		cases: CAPS * histories_per_cap(tier) + if matches!(tier, Tier::Thorough) { 1 } else { 0 },
 		shards: 12,
 		case_timeout_s: 300,
 		level: "exploration",
@@ -96,7 +96,57 @@ fn twin(size: usize, ops: &[(Op, u64)]) -> LimitedCache<u64, u64> {
 	c
 }
 
+/// thorough only: a cache whose access clock has passed 2^32 (as it does in a long-lived server) still evicts,
+/// keeps its bound and keeps the entry used last
+fn long_clock_case(cx: &CaseCtx, rep: &mut Report) {
+	cx.progress("access clock beyond 2^32");
+	let r = guard::catch_strict_thread(|| {
+		let mut cache: LimitedCache<u64, u64> = LimitedCache::with_maximum_size(16 * 3);
+		cache.add(1, 100);
+		cache.add(2, 200);
+		let mut n = 0u64;
+		while n < (1u64 << 32) + 1000 {
+			let _ = cache.get(&(1 + (n & 1)));
+			n += 1;
+		}
+		let mut out: Vec<String> = vec![];
+		for k in 3..40u64 {
+			let prev = k - 1;
+			let _ = cache.get(&prev);
+			cache.add(k, k * 100);
+			let (l, m) = debug_fields(&cache).unwrap_or((usize::MAX, 0));
+			if l > m {
+				out.push(format!("after add({k}): {l} entries, capacity {m}"));
+				break;
+			}
+			if cache.get(&prev).is_none() {
+				out.push(format!("key {prev} was read right before add({k}) and is gone"));
+				break;
+			}
+			if cache.get(&k) != Some(k * 100) {
+				out.push(format!("key {k} is not readable after add"));
+				break;
+			}
+		}
+		out
+	});
+	rep.evals(1u64 << 32);
+	rep.count("histories_with_a_clock_beyond_2^32", 1);
+	match r {
+		Err(p) => rep.violation(&p.signature("limited_cache"), "cache operation panicked", json!({"panic": p.describe()})),
+		Ok(v) => {
+			if let Some(first) = v.first() {
+				rep.violation("long-clock|bound-or-survival", "after 2^32 accesses the cache no longer keeps its bound / the entry used last", json!({"what": first}));
+			}
+		}
+	}
+}
+
 fn run_case(cx: &CaseCtx, rep: &mut Report) {
+	if cx.case >= CAPS * histories_per_cap(cx.tier) {
+		long_clock_case(cx, rep);
+		return;
+	}
 	let mut rng = cx.rng();
 	let cap = (cx.case % CAPS) + 1;
 	let variant = cx.case / CAPS;
@@ -123,6 +173,9 @@ fn run_case(cx: &CaseCtx, rep: &mut Report) {
 		let mut pure_ops: Vec<(Op, u64)> = Vec::new();
 		let mut twins = 0usize;
 		let mut ever: HashMap<u64, HashSet<u64>> = HashMap::new();
+		// the value of the live entry of a key, as far as the return values of the operations tell: whatever add /
+		// get_or_set returned last. A later hit on that key has to return exactly it.
+		let mut current: HashMap<u64, u64> = HashMap::new();
 		let mut next_val = 1u64;
 		let mut evictions = 0u64;
 		let mut max_len_seen = 0usize;
@@ -165,6 +218,10 @@ fn run_case(cx: &CaseCtx, rep: &mut Report) {
 						fail(rep, "add|foreign-value", "add returned a value never stored under that key");
 					}
 					inserted_new = r == v;
+					if !inserted_new && current.get(&k) != Some(&r) {
+						fail(rep, "add|stale-value", "add on a cached key returned another value than the entry's");
+					}
+					current.insert(k, r);
 					pure_ops.push((op, v));
 					// read-your-write
 					let ryw = if step >= PURE_STEPS {
@@ -189,6 +246,8 @@ fn run_case(cx: &CaseCtx, rep: &mut Report) {
 						Some(v) => {
 							if !ever.get(&k).map(|s| s.contains(&v)).unwrap_or(false) {
 								fail(rep, "get|foreign-value", "get returned a value never stored under that key");
+							} else if current.get(&k) != Some(&v) {
+								fail(rep, "get|stale-value", "get returned a value of an earlier, replaced entry of that key");
 							}
 							last_used = Some(k);
 						}
@@ -210,9 +269,12 @@ fn run_case(cx: &CaseCtx, rep: &mut Report) {
 								if g != v {
 									fail(rep, "get_or_set|miss-value", "get_or_set did not return the loader's value on a miss");
 								}
+								current.insert(k, g);
 								inserted_new = true;
 							} else if !ever.get(&k).map(|s| s.contains(&g)).unwrap_or(false) {
 								fail(rep, "get_or_set|foreign-value", "get_or_set hit returned a value never stored under that key");
+							} else if current.get(&k) != Some(&g) {
+								fail(rep, "get_or_set|stale-value", "get_or_set hit returned a value of an earlier, replaced entry of that key");
 							}
 							let ryw = if step >= PURE_STEPS {
 								Some(cache.get(&k))
@@ -270,6 +332,17 @@ fn run_case(cx: &CaseCtx, rep: &mut Report) {
 							}
 						}
 					}
+				}
+			}
+			if step < PURE_STEPS && step % 211 == 17 && twins < MAX_TWINS {
+				// how many keys answer? (asked of a twin; a lookup creates nothing, so the count is a lower bound of what
+				// the cache holds and may not exceed its capacity)
+				twins += 1;
+				let mut t = twin(size, &pure_ops);
+				let present = (0..keys).filter(|k| t.get(k).is_some()).count();
+				rep.count("presence_censuses", 1);
+				if present > cap as usize {
+					fail(rep, "bound|more-keys-answer-than-capacity", "more distinct keys are answered than the capacity allows");
 				}
 			}
 			match debug_fields(&cache) {
